@@ -38,12 +38,17 @@ def main():
             covered.setdefault(sig(u), "T: inlined into %s" % name)
     for t in gen_ops.main(REPO, outdir, consts):
         covered.setdefault(sig(t["entry"]), "T: %s (gen_ops, OpsTable.v)" % t["name"])
+    import gen_ref
+    gen_ref.main(REPO, outdir)
+    reflang = {("Terminal", "disconnect")}
     formulas = {("MotionProfile", "new"), ("MotionProfile", "get_acceleration"), ("MotionProfile", "get_velocity"), ("MotionProfile", "get_position"),
                 ("State", "update"), ("PIDKValues", "evaluate")}
     out = []
     n = {"T": 0, "S": 0, "C": 0}
     for (f, key, fn, e) in sorted(rows, key=lambda r: (r[0], r[1], r[2])):
         how = covered.get(sig(e))
+        if how is None and (key.split("<")[0], fn) in reflang:
+            how = "T: RefLang translator (C09Connect.v; the free function `connect` likewise)"
         if how is None and (key.split("<")[0], fn) in formulas:
             how = "T: formula translator (C06Formulas.v)"
         if how is None and f == "src/datum.rs" and e.get("trait") in ("Add", "Sub", "Mul", "Div", "Neg", "Not", "AddAssign", "SubAssign", "MulAssign", "DivAssign"):
@@ -69,8 +74,9 @@ def main():
            "| file | impl | fn | tie |", "|---|---|---|---|"]
     open(os.path.join(os.path.dirname(os.path.dirname(os.path.abspath(__file__))), "INVENTORY.md"), "w").write("\n".join(hdr + out) + "\n")
     print("T %d S %d C %d of %d" % (n["T"], n["S"], n["C"], len(out)))
-    for l in out:
-        if "| C:" in l: print(l)
+    if "-v" in sys.argv:
+        for l in out:
+            if "| C:" in l: print(l)
 
 if __name__ == "__main__":
     main()
